@@ -322,7 +322,7 @@ class V:
 
 
     # ------------------------------------------------------------------ polars containers (stage 2 of DESIGN.md 2.3)
-    def plframe(self, cols, n, lazy=False, nan=False):
+    def plframe(self, cols, n, lazy=False, nan=False, rid=False):
         """cols: list of (name, kind[, nullable]); kind in int/float/str/bool.  Symbolic mode: a sympl frame; concrete mode: a
         real polars frame with the model's values.  nan=True adds a NaN flag per float cell (distinct from null)."""
         import polars as pl
@@ -349,6 +349,8 @@ class V:
                         t = self.vals.term(x)
                         cv.append(float(t) if kind == "float" else t)
                 data[name] = pl.Series(name, cv, dtype=PLDT[kind])
+        if rid:  # concrete row identifiers: lets the concrete side name the input position of every surviving row
+            data["_rid"] = sympl.Col([z3.IntVal(i) for i in range(n)], [z3.BoolVal(False)] * n, pl.Int64) if self.sym else pl.Series("_rid", list(range(n)), dtype=pl.Int64)
         if self.sym:
             sympl.set_mode(True)
             return (sympl.LazyFrame if lazy else sympl.DataFrame)(data, present=[z3.BoolVal(True)] * n)
@@ -512,6 +514,10 @@ def pl_kind(x):
 
 
 def _pl_num(x):
+    if isinstance(x, str) and (x.startswith("{") or x == "<struct>"):
+        return "<struct>"  # JSON text of a multi-column failure case: outside the claim
+    if x in ("true", "false"):
+        return x == "true"
     if isinstance(x, str):
         try:
             return round(float(x), 9)
@@ -773,3 +779,39 @@ def with_sample_stub(obj, vals: Vals, n_rows):
         if pd.DataFrame in reg:
             reg[StubSampleFrame] = reg[pd.DataFrame]
     return out
+
+
+class pl_sample_stub:
+    """context manager for the concrete replay: polars' DataFrame.sample(n, seed=s) returns the rows the solver model picked
+    (variables plsample!<seed>!<i>) — the contract stub of sympl.DataFrame.sample on the real side"""
+
+    def __init__(self, vals):
+        self.picks = {}
+        for name, val in (vals or {}).items():
+            if str(name).startswith("plsample!"):
+                _, seed, i = name.split("!")
+                self.picks.setdefault(seed, {})[int(i)] = bool(val)
+
+    def __enter__(self):
+        import polars as pl
+
+        self._orig = pl.DataFrame.sample
+        picks, orig = self.picks, self._orig
+
+        def sample(df, n=None, *, fraction=None, with_replacement=False, shuffle=False, seed=None):
+            table = picks.get(str(seed))
+            if table is None or n is None:
+                return orig(df, n, fraction=fraction, with_replacement=with_replacement, shuffle=shuffle, seed=seed)
+            rows = [i for i in range(df.height) if table.get(i, False)]
+            if len(rows) != n:
+                return orig(df, n, fraction=fraction, with_replacement=with_replacement, shuffle=shuffle, seed=seed)
+            return df[rows]
+
+        pl.DataFrame.sample = sample
+        return self
+
+    def __exit__(self, *a):
+        import polars as pl
+
+        pl.DataFrame.sample = self._orig
+        return False
